@@ -562,7 +562,13 @@ PROPS["C04"]["harnesses"] = PROPS["C04"]["harnesses"] + [
       SKESK_F, "N=%d symbolic octets" % n)
     for n, tier in [(0, "quick"), (1, "quick"), (2, "thorough"), (17, "quick")]
 ]
-PROPS["C04"]["inject"] = PROPS["C04"]["inject"] + [("src/packet/sym_key_encrypted_session_key.rs", "c04_skesk")]
+PROPS["C04"]["harnesses"] = PROPS["C04"]["harnesses"] + [
+    H("c04_aes_kw_unwrap_%d" % n, "c04_aeskw", tier, 300,
+      "crypto::aes_kw::unwrap (reached from every ECDH PKESK with the attacker's wrapped-key field) on %d arbitrary octets: error, no panic (found F9)" % n,
+      ["crypto::aes_kw::unwrap"], "N=%d symbolic octets" % n)
+    for n, tier in [(0, "quick"), (3, "thorough"), (7, "quick")]
+]
+PROPS["C04"]["inject"] = PROPS["C04"]["inject"] + [("src/packet/sym_key_encrypted_session_key.rs", "c04_skesk"), ("src/lib.rs", "c04_aeskw")]
 PROPS["C04"]["assumptions"] = PROPS["C04"]["assumptions"] + ["c04_skesk_*: SymmetricKeyAlgorithm::decrypt_with_iv_regular is a no-op (the decrypted session-key plaintext is the attacker's octets)"]
 PROPS["C04"]["harnesses"] = PROPS["C04"]["harnesses"] + [h for h in _C04_PICKS if h["name"] not in {x["name"] for x in PROPS["C04"]["harnesses"]}]
 PROPS["C04"]["inject"] = PROPS["C04"]["inject"] + [i for i in PROPS["C17"]["inject"] + PROPS["C05"]["inject"] + PROPS["C10"]["inject"]
